@@ -1,7 +1,7 @@
 import corpus
 
-PLAN_QUICK = [("contrib", ["v1", "v0"]), ('ctx', ['v1', 'v0', 'lazy1']), ('core', ['v1', 'v0']), ('conv', ['v1', 'v0']), ('exc', ['v1', 'v0']), ('act', ['v3'])]
-PLAN_THOROUGH = [("contrib", ["v1", "v0", "lazy1"]), ('ctx', ['v1', 'v0', 'lazy1', 'v3']), ('core', ['v1', 'v0', 'lazy1']), ('conv', ['v1', 'v0', 'lazy1']), ('exc', ['v1', 'v0', 'v4']), ('act', ['v3', 'v4'])]
+PLAN_QUICK = [('ctxf', ['v1']), ("contrib", ["v1", "v0"]), ('ctx', ['v1', 'v0', 'lazy1']), ('core', ['v1', 'v0']), ('conv', ['v1', 'v0']), ('exc', ['v1', 'v0']), ('act', ['v3'])]
+PLAN_THOROUGH = [('ctxf', ['v1', 'lazy1']), ('contrib', ['v1', 'lazy1']), ('ctx', ['v1', 'v0', 'lazy1', 'v3']), ('core', ['v1', 'lazy1']), ('conv', ['v1', 'v0']), ('exc', ['v1', 'v4']), ('act', ['v3', 'v4'])]
 
 
 def units(tier, seed):
